@@ -442,6 +442,21 @@ def random_scenario(rng: random.Random) -> dict:
                        "echo": rng.random() < 0.5, "greet": rng.random() < 0.5}}
 
 
+def bound_scenario(rng: random.Random) -> dict:
+    """6..9 OpenConnection commands to one address with the real semaphore; the environment completes every connect
+    that is pending, closes some connections, completes again ...: more than five can only be open if the limit fails."""
+    n = rng.randint(6, 9)
+    ops: list = [["cmd", [["open", "a"]] * n]] if rng.random() < 0.5 else [["cmd", [["open", "a"]]] for _ in range(n)]
+    for _round in range(rng.randint(1, 3)):
+        order = list(range(1, n + 1))
+        rng.shuffle(order)
+        ops += [["burst", [["ok", i] for i in order]]] if rng.random() < 0.5 else [["ok", i] for i in order]
+        for i in rng.sample(range(1, n + 1), rng.randint(0, 3)):
+            ops.append(rng.choice([["cmd", [["close", i]]], ["seof", i], ["serr", i]]))
+    ops.append(["ceof"])
+    return {"ops": ops, "lenient": True, "eager": rng.random() < 0.5}
+
+
 GATE_HOOK = {"g_server_connect": "server_connect", "g_kill_error": "server_connect_error",
              "g_server_connect_error": "server_connect_error", "g_server_connected": "server_connected",
              "g_server_disconnected": "server_disconnected", "g_client_connected": "client_connected",
@@ -634,6 +649,8 @@ class Check(core.PropertyCheck):
                 sc.data["probe"] = [["ok", i] for i in range(1, self.BOUND["MaxConns"] + 1)]
             yield sc
         rng = random.Random(ctx.seed + 9)
+        for _ in range(40 if ctx.quick else 400):
+            yield core.Scenario(bound_scenario(rng), source="bound")
         for _ in range(500 if ctx.quick else 8000):
             yield core.Scenario(random_scenario(rng), source="random")
 
